@@ -120,19 +120,89 @@ BspWellFormed(ns) ==
     IN  /\ \A j \in 1..n :
               /\ ns[j].axis \in 0..2
               /\ ns[j].leaf = BspIsLeaf(ns[j])
-              \* inner node: two distinct children stored behind it (pre-order: no cycles)
-              /\ (BspIsLeaf(ns[j]) \/ (ns[j].neg \in j..(n - 1) /\ ns[j].pos \in j..(n - 1) /\ ns[j].neg # ns[j].pos /\ ns[j].nfaces = 0))
+              \* inner node: one or two children (a missing side is -1), stored behind it (pre-order: no cycles),
+              \* distinct when both exist; it carries no faces and does NOT carry the leaf bit
+              /\ (BspIsLeaf(ns[j]) \/ (/\ ns[j].neg \in {-1} \cup j..(n - 1) /\ ns[j].pos \in {-1} \cup j..(n - 1)
+                                         /\ ns[j].neg # ns[j].pos /\ ns[j].nfaces = 0))
               \* a tree: the root has no parent, every other node exactly one
               /\ Cardinality(Parents(j)) = IF j = 1 THEN 0 ELSE 1
         \* the leaves' face ranges tile [0, total)
         /\ \A a \in Leaves : ns[a].fstart = Sum([b \in 1..n |-> IF b \in Leaves /\ ns[b].fstart < ns[a].fstart THEN ns[b].nfaces ELSE 0])
-\* catalogue of tree shapes (children per node, 1-based, 0 = none; pre-order): leaf, root+2 leaves, left-deep, right-deep,
-\* full depth 2
+\* catalogue of tree shapes (children per node, 1-based, 0 = none; pre-order): EVERY tree with at most three interior nodes in
+\* which an interior node has a left child only, a right child only, or both (73 shapes: 1 + 3 + 12 + 57)
 BspKids == << << <<0,0>> >>,
               << <<2,3>>, <<0,0>>, <<0,0>> >>,
-              << <<2,5>>, <<3,4>>, <<0,0>>, <<0,0>>, <<0,0>> >>,
+              << <<2,0>>, <<0,0>> >>,
+              << <<0,2>>, <<0,0>> >>,
               << <<2,3>>, <<0,0>>, <<4,5>>, <<0,0>>, <<0,0>> >>,
-              << <<2,5>>, <<3,4>>, <<0,0>>, <<0,0>>, <<6,7>>, <<0,0>>, <<0,0>> >> >>
+              << <<2,3>>, <<0,0>>, <<4,0>>, <<0,0>> >>,
+              << <<2,3>>, <<0,0>>, <<0,4>>, <<0,0>> >>,
+              << <<0,2>>, <<3,4>>, <<0,0>>, <<0,0>> >>,
+              << <<0,2>>, <<3,0>>, <<0,0>> >>,
+              << <<0,2>>, <<0,3>>, <<0,0>> >>,
+              << <<2,5>>, <<3,4>>, <<0,0>>, <<0,0>>, <<0,0>> >>,
+              << <<2,0>>, <<3,4>>, <<0,0>>, <<0,0>> >>,
+              << <<2,4>>, <<3,0>>, <<0,0>>, <<0,0>> >>,
+              << <<2,0>>, <<3,0>>, <<0,0>> >>,
+              << <<2,4>>, <<0,3>>, <<0,0>>, <<0,0>> >>,
+              << <<2,0>>, <<0,3>>, <<0,0>> >>,
+              << <<2,3>>, <<0,0>>, <<4,5>>, <<0,0>>, <<6,7>>, <<0,0>>, <<0,0>> >>,
+              << <<2,3>>, <<0,0>>, <<4,5>>, <<0,0>>, <<6,0>>, <<0,0>> >>,
+              << <<2,3>>, <<0,0>>, <<4,5>>, <<0,0>>, <<0,6>>, <<0,0>> >>,
+              << <<2,3>>, <<0,0>>, <<0,4>>, <<5,6>>, <<0,0>>, <<0,0>> >>,
+              << <<2,3>>, <<0,0>>, <<0,4>>, <<5,0>>, <<0,0>> >>,
+              << <<2,3>>, <<0,0>>, <<0,4>>, <<0,5>>, <<0,0>> >>,
+              << <<2,3>>, <<0,0>>, <<4,7>>, <<5,6>>, <<0,0>>, <<0,0>>, <<0,0>> >>,
+              << <<2,3>>, <<0,0>>, <<4,0>>, <<5,6>>, <<0,0>>, <<0,0>> >>,
+              << <<2,3>>, <<0,0>>, <<4,6>>, <<5,0>>, <<0,0>>, <<0,0>> >>,
+              << <<2,3>>, <<0,0>>, <<4,0>>, <<5,0>>, <<0,0>> >>,
+              << <<2,3>>, <<0,0>>, <<4,6>>, <<0,5>>, <<0,0>>, <<0,0>> >>,
+              << <<2,3>>, <<0,0>>, <<4,0>>, <<0,5>>, <<0,0>> >>,
+              << <<0,2>>, <<3,4>>, <<0,0>>, <<5,6>>, <<0,0>>, <<0,0>> >>,
+              << <<0,2>>, <<3,4>>, <<0,0>>, <<5,0>>, <<0,0>> >>,
+              << <<0,2>>, <<3,4>>, <<0,0>>, <<0,5>>, <<0,0>> >>,
+              << <<0,2>>, <<0,3>>, <<4,5>>, <<0,0>>, <<0,0>> >>,
+              << <<0,2>>, <<0,3>>, <<4,0>>, <<0,0>> >>,
+              << <<0,2>>, <<0,3>>, <<0,4>>, <<0,0>> >>,
+              << <<0,2>>, <<3,6>>, <<4,5>>, <<0,0>>, <<0,0>>, <<0,0>> >>,
+              << <<0,2>>, <<3,0>>, <<4,5>>, <<0,0>>, <<0,0>> >>,
+              << <<0,2>>, <<3,5>>, <<4,0>>, <<0,0>>, <<0,0>> >>,
+              << <<0,2>>, <<3,0>>, <<4,0>>, <<0,0>> >>,
+              << <<0,2>>, <<3,5>>, <<0,4>>, <<0,0>>, <<0,0>> >>,
+              << <<0,2>>, <<3,0>>, <<0,4>>, <<0,0>> >>,
+              << <<2,5>>, <<3,4>>, <<0,0>>, <<0,0>>, <<6,7>>, <<0,0>>, <<0,0>> >>,
+              << <<2,5>>, <<3,4>>, <<0,0>>, <<0,0>>, <<6,0>>, <<0,0>> >>,
+              << <<2,5>>, <<3,4>>, <<0,0>>, <<0,0>>, <<0,6>>, <<0,0>> >>,
+              << <<2,4>>, <<3,0>>, <<0,0>>, <<5,6>>, <<0,0>>, <<0,0>> >>,
+              << <<2,4>>, <<3,0>>, <<0,0>>, <<5,0>>, <<0,0>> >>,
+              << <<2,4>>, <<3,0>>, <<0,0>>, <<0,5>>, <<0,0>> >>,
+              << <<2,4>>, <<0,3>>, <<0,0>>, <<5,6>>, <<0,0>>, <<0,0>> >>,
+              << <<2,4>>, <<0,3>>, <<0,0>>, <<5,0>>, <<0,0>> >>,
+              << <<2,4>>, <<0,3>>, <<0,0>>, <<0,5>>, <<0,0>> >>,
+              << <<2,7>>, <<3,4>>, <<0,0>>, <<5,6>>, <<0,0>>, <<0,0>>, <<0,0>> >>,
+              << <<2,0>>, <<3,4>>, <<0,0>>, <<5,6>>, <<0,0>>, <<0,0>> >>,
+              << <<2,6>>, <<3,4>>, <<0,0>>, <<5,0>>, <<0,0>>, <<0,0>> >>,
+              << <<2,0>>, <<3,4>>, <<0,0>>, <<5,0>>, <<0,0>> >>,
+              << <<2,6>>, <<3,4>>, <<0,0>>, <<0,5>>, <<0,0>>, <<0,0>> >>,
+              << <<2,0>>, <<3,4>>, <<0,0>>, <<0,5>>, <<0,0>> >>,
+              << <<2,6>>, <<0,3>>, <<4,5>>, <<0,0>>, <<0,0>>, <<0,0>> >>,
+              << <<2,0>>, <<0,3>>, <<4,5>>, <<0,0>>, <<0,0>> >>,
+              << <<2,5>>, <<0,3>>, <<4,0>>, <<0,0>>, <<0,0>> >>,
+              << <<2,0>>, <<0,3>>, <<4,0>>, <<0,0>> >>,
+              << <<2,5>>, <<0,3>>, <<0,4>>, <<0,0>>, <<0,0>> >>,
+              << <<2,0>>, <<0,3>>, <<0,4>>, <<0,0>> >>,
+              << <<2,7>>, <<3,6>>, <<4,5>>, <<0,0>>, <<0,0>>, <<0,0>>, <<0,0>> >>,
+              << <<2,0>>, <<3,6>>, <<4,5>>, <<0,0>>, <<0,0>>, <<0,0>> >>,
+              << <<2,6>>, <<3,0>>, <<4,5>>, <<0,0>>, <<0,0>>, <<0,0>> >>,
+              << <<2,0>>, <<3,0>>, <<4,5>>, <<0,0>>, <<0,0>> >>,
+              << <<2,6>>, <<3,5>>, <<4,0>>, <<0,0>>, <<0,0>>, <<0,0>> >>,
+              << <<2,0>>, <<3,5>>, <<4,0>>, <<0,0>>, <<0,0>> >>,
+              << <<2,5>>, <<3,0>>, <<4,0>>, <<0,0>>, <<0,0>> >>,
+              << <<2,0>>, <<3,0>>, <<4,0>>, <<0,0>> >>,
+              << <<2,6>>, <<3,5>>, <<0,4>>, <<0,0>>, <<0,0>>, <<0,0>> >>,
+              << <<2,0>>, <<3,5>>, <<0,4>>, <<0,0>>, <<0,0>> >>,
+              << <<2,5>>, <<3,0>>, <<0,4>>, <<0,0>>, <<0,0>> >>,
+              << <<2,0>>, <<3,0>>, <<0,4>>, <<0,0>> >> >>
 BspOf(kids) ==
     [j \in 1..Len(kids) |->
         LET lf == kids[j] = <<0, 0>>
@@ -144,9 +214,11 @@ BspCatalog == [t \in 1..Len(BspKids) |-> BspOf(BspKids[t])]
 BspCatalogOk == \A t \in 1..Len(BspCatalog) : BspWellFormed(BspCatalog[t])
 \* sanity of the predicate itself: swapping a child for the root, or shifting a face range, is rejected
 BspMutantsRejected ==
-    /\ ~BspWellFormed([BspCatalog[2] EXCEPT ![1].pos = 0])
-    /\ ~BspWellFormed([BspCatalog[3] EXCEPT ![4].fstart = @ + 1])
-    /\ ~BspWellFormed([BspCatalog[5] EXCEPT ![5].neg = 1])
+    /\ ~BspWellFormed([BspCatalog[2] EXCEPT ![1].pos = 0])                 \* a child that is the root
+    /\ ~BspWellFormed([BspCatalog[5] EXCEPT ![4].fstart = @ + 1])          \* face ranges no longer tile
+    /\ ~BspWellFormed([BspCatalog[5] EXCEPT ![3].neg = 1])                 \* a node with two parents
+    /\ ~BspWellFormed([BspCatalog[3] EXCEPT ![1].leaf = TRUE])             \* one-sided interior node flagged as leaf
+    /\ Len(BspCatalog) = 73
 
 \* ------------------------------------------------------------------ shapes
 \* A root shape: list lengths and the lengths of the strings in the three tables.
@@ -349,7 +421,7 @@ DoneStrings == (lphase = "done" /\ lsh.kind = "root") =>
 
 \* ------------------------------------------------------------------ round-trip obligations
 \* Sections of a root / group object whose content tokens must survive write -> parse.
-RootSections == {"header", "bounds", "textures", "tex_resolve", "materials", "materials_fbblend",
+RootSections == {"header", "bounds", "textures", "textures_named", "group_names_named", "tex_resolve", "materials", "materials_fbblend",
                  "group_geom", "group_names", "portals", "portal_refs", "visible_lists", "lights",
                  "light_props", "doodad_geom", "doodad_name_offsets", "doodad_set_index",
                  "doodad_sets", "skybox"}
